@@ -471,7 +471,7 @@ impl vstd::std_specs::convert::FromSpecImpl<u64> for VfsInode {
                               '!(self.route(nodeid) is Vacant) ==> *final(ctx) == ctx_to_int(self.eff_map(self.route(nodeid).idx()), *old(ctx)) // [C14.ctx.route]'],
                      splices=[('^', 'after', 'proof { lemma_rt(self.route(nodeid).idx(), self.route(nodeid).ino()); }')]))
     routed.append(Fn(MOD, 'impl Vfs', 'initialized', ensures=['r == self.initialized.cur()'], props=['C12']))
-    routed.append(Fn(SYNC, SC, 'init', ret_name='res', props=['C12'], canary=True,
+    routed.append(Fn(SYNC, SC, 'init', ret_name='res', props=['C12'], canary=True, gtag_props={'cap': ['C12'], 'touch': ['C12'], 'store': ['C12']},
                      body_subst=[('*self.opts.load().deref().deref()', '*self.opts.load()'),     # Guard<Arc<T>> double deref = the loaded value
                                  ('n_opts.out_opts &= opts;', 'n_opts.out_opts = n_opts.out_opts & opts;')],   # bitflags: a &= b is a = a & b
                      requires=['self.wf()',
@@ -499,6 +499,6 @@ impl vstd::std_specs::convert::FromSpecImpl<u64> for VfsInode {
                         && (forall|o: FsOptions| #[trigger] (*self.sb()[k]->Some_0).allowed_init(o) <==> (!self.initialized.cur() && o.bits == vfs_out(self.opts.cur(), opts))),
             {''')]))
     items.append(Group('impl Vfs {', routed))
-    u = Unit('vfs', items, preludes=['base.rs', 'stdmodel.rs', 'names.rs', 'vfs.rs'], generic_tags={'cap': ['C07'], 'touch': ['C06'], 'ids': ['C14']},
+    u = Unit('vfs', items, preludes=['base.rs', 'stdmodel.rs', 'names.rs', 'vfs.rs'], generic_tags={'cap': ['C07'], 'touch': ['C06'], 'ids': ['C14'], 'store': ['C12']},
              notes='\n'.join(notes))
     return u
